@@ -120,6 +120,8 @@ class World:
                 if i and index_mode == "jumpy":
                     li = li * (1 + Decimal(rng.choice([0, 0, 1, 300, 20000]) * rng.randint(0, 1000)) / 10**9)
                     bi = bi * (1 + Decimal(rng.choice([0, 0, 2, 5000, 60000]) * rng.randint(0, 1000)) / 10**9)
+                elif i and index_mode == "erode":  # debts outgrow the collateral: the health factor falls with prices unchanged
+                    bi = bi * (1 + Decimal(rng.choice([0, 0, 10, 40, 150]) * rng.randint(0, 1000)) / 10**6)
                 elif i and index_mode == "slow":
                     li = li * (1 + Decimal(rng.randint(0, 2000)) / 10**9)
                     bi = bi * (1 + Decimal(rng.randint(0, 5000)) / 10**9)
@@ -167,7 +169,7 @@ def base_prices(rng, names, low_debt_price=None):
     return out
 
 
-def plan_portfolio(rng, wd: World, prices, bar=0):
+def plan_portfolio(rng, wd: World, prices, bar=0, tight=False):
     """Amounts (token units, Decimal) for supplies and borrows at bar 0, HF comfortably above 1."""
     colls = [nm for nm in wd.names if wd.can_coll[nm]]
     borrowable = [nm for nm in wd.names if wd.can_borrow[nm]]
@@ -187,7 +189,7 @@ def plan_portfolio(rng, wd: World, prices, bar=0):
     cap = sum(F(a) * prices[nm] * wd.ltv[nm] for nm, a, c in sup if c)
     nd = min(len(borrowable), rng.choice([1, 1, 2, 2, 3]))
     ds = rng.sample(borrowable, nd)
-    use = Fraction(rng.randint(30, 96), 100)
+    use = Fraction(rng.randint(90, 99), 100) if tight else Fraction(rng.randint(30, 96), 100)
     dw = [Fraction(rng.choice([1, 1, 3, 10, 100, 3000])) for _ in ds]
     bor = []
     for nm, wgt in zip(ds, dw):
@@ -428,12 +430,14 @@ def frozen_case(mon, rng, c):
     ntok = rng.choice([2, 3, 3, 4, 5])
     toks = rng.sample(TOKENS, ntok)
     nbars = rng.randint(3, 8)
-    index_mode = rng.choice(["jumpy", "jumpy", "slow", "distinct", "equal", "one"])
+    index_mode = rng.choice(["jumpy", "jumpy", "slow", "distinct", "equal", "one", "erode"])
+    if index_mode == "erode":
+        nbars = rng.randint(5, 12)
     wd = World(rng, nbars, toks, index_mode, all_flags=rng.random() < 0.6)
     borrowable = [nm for nm in wd.names if wd.can_borrow[nm]]
     low = rng.choice(borrowable) if rng.random() < 0.3 else None
     prices = base_prices(rng, wd.names, low)
-    sup, bor = plan_portfolio(rng, wd, prices)
+    sup, bor = plan_portfolio(rng, wd, prices, tight=index_mode == "erode")
     m = wd.market()
     row = price_row(wd, prices)
     prices = {nm: F(row[nm]) for nm in wd.names}
@@ -455,6 +459,15 @@ def frozen_case(mon, rng, c):
     monitored_update(mon, "frozen", wd, fz, m, 0, prices, ctx)
     for bar in range(1, nbars):
         st = observe(m)
+        if index_mode == "erode":
+            # the very same price row on every bar: only the borrow indices move the health factor
+            fz.set_bar(wd.index[bar], row)
+            mon.cls("target/index-driven")
+            mon.hit("index-driven-bars")
+            summ = monitored_update(mon, "frozen", wd, fz, m, bar, prices, dict(ctx, target="index-driven"))
+            if summ is None:
+                return
+            continue
         band, h = pick_target(rng)
         # small independent shocks first, then the solved scaling
         shocked = {nm: prices[nm] * Fraction(rng.randint(900, 1100), 1000) for nm in wd.names}
@@ -582,12 +595,12 @@ def actuator_case(mon, rng, c):
     ntok = rng.choice([2, 3, 4])
     toks = rng.sample(TOKENS, ntok)
     nbars = rng.randint(5, 10)
-    index_mode = rng.choice(["jumpy", "slow", "distinct"])
+    index_mode = rng.choice(["jumpy", "slow", "distinct", "erode"])
     wd = World(rng, nbars, toks, index_mode, all_flags=rng.random() < 0.6)
     borrowable = [nm for nm in wd.names if wd.can_borrow[nm]]
     low = rng.choice(borrowable) if rng.random() < 0.3 else None
     p0 = base_prices(rng, wd.names, low)
-    sup, bor = plan_portfolio(rng, wd, p0)
+    sup, bor = plan_portfolio(rng, wd, p0, tight=index_mode == "erode")
     # planned state right after the bar-0 operations (exact, by the definitions of scaled balances)
     st = O.State()
     for nm, a, coll in sup:
@@ -599,6 +612,9 @@ def actuator_case(mon, rng, c):
     stress = sorted(rng.sample(range(1, nbars), rng.randint(1, 2)))
     targets = {}
     for bar in range(1, nbars):
+        if index_mode == "erode":  # the same price row on every bar
+            rows.append(rows[0].copy())
+            continue
         shocked = {nm: prices[nm] * Fraction(rng.randint(930, 1050), 1000) for nm in wd.names}
         newp = shocked
         if bar == stress[0]:
@@ -707,7 +723,7 @@ def floors(merged, tier):
     need = {
         "updates": 300, "liquidations": 100, "band(0.95,1)": 20, "band(0.5,0.95)": 20, "band(0,0.5]": 10,
         "no-liquidation-at-hf>=1": 50, "capped-step": 10, "multi-step": 10, "step-li_c!=li_d": 50,
-        "exact-hf=1": 2, "exact-hf=0.95": 2, "end:hf>=1": 20, "end:no-collateral": 5, "end:all-debts-visited": 5,
+        "exact-hf=1": 2, "exact-hf=0.95": 2, "index-driven-bars": 50, "end:hf>=1": 20, "end:no-collateral": 5, "end:all-debts-visited": 5,
     }
     out = [f"reach '{k}' = {r.get(k, 0)} < {v}" for k, v in need.items() if r.get(k, 0) < v]
     act = sum(v for k, v in merged["classes"].items() if k.startswith("update/actuator/") and not k.endswith("steps=0"))
